@@ -41,7 +41,7 @@ Verdict(e) ==
             (IF ~KnownKinds(e.term) \/ e.want.c[1] = "b" \/ Equiv(e.term, TripleTerm(e.want)) THEN {} ELSE {"constructed_term_value_wrong"})
             \cup (IF e.back_ok /\ SameTriple(CoefNorm(e.back), CoefNorm(e.want)) THEN {} ELSE {"constructed_term_decomposes_differently"}))
     [] e.typ = "factor" ->
-         (IF SetOf(e.keys) = Divisors(e.n) /\ Len(e.keys) = Cardinality(Divisors(e.n))
+         (LET D == Divisors(e.n) IN IF SetOf(e.keys) = D /\ Len(e.keys) = Cardinality(D)
              /\ \A k \in 1..Len(e.keys) : e.vals[k] * e.keys[k] = e.n THEN {} ELSE {"factor_table_not_divisor_pairs"})
     [] e.typ = "calls" -> (IF e.raised = <<>> THEN {} ELSE {"term_predicate_raises"})
     [] OTHER -> {"harness_unknown_event"}
